@@ -21,7 +21,10 @@ def generate(rng, tier):
     for rep in range(reps):
         for R in range(3):
             for Q in range(4):
-                c = FL.gen_filter_case(rng, tier, R, Q)
+                # the transform options reach both transforms of every variant
+                opt = (rep + Q + R) % 4 if rep else 0
+                c = FL.gen_filter_case(rng, tier, R, Q, lorch=bool(opt & 1), omitted=bool(opt & 2))
+                c["flagform"] = ["bool", "npbool", "bool", "int"][(rep + R) % 4]
                 if rep < 4:   # every variant sees every present/absent combination of the two input uncertainties, with non-zero values
                     FL.force_uncertainties(rng, c, dgr=bool(rep & 1) or rep == 0, dy=bool(rep & 2) or rep == 0)
                 if rep == 2 and len(c["r"]) > 3:   # points at negative r lie outside [0, cutoff] like those beyond the cutoff
@@ -83,18 +86,21 @@ def oracle(pystog, case, res):
     g0 = np.where(~beyond, 0.0, np.array(case["common"]["g"]))
     gin0 = L.from_base(1, R, r, g0, m)
     o3 = FL.call_filter(pystog, case, gr=gin0)
+    # (with the omitted-range option the r -> Q transform adds its model term for r below the first grid point, data or no data)
     with np.errstate(all="ignore"):
+      if not (case["omitted"] and min(case["r"]) != 0.0):
         # the low-r signal is g+1-1 = ... : the code transforms (g_tmp + 1) - 1 = g, so g = 0 there removes nothing
         if (np.abs(o3[1] - c) > 1e-9 * (1 + np.abs(c))).any():
             return "data vanishing in g(r) below the cutoff still produce a removed component"
         if (np.abs(o3[3] - yin) > 1e-9 * (1 + np.abs(yin))).any():
             return "data vanishing in g(r) below the cutoff change the reciprocal-space function"
+    opts = FL.option_kwargs(case)
     # removed component = sine transform (public method) of the real-space signal on the closed interval [0, cutoff] alone
     keep = [i for i, v in enumerate(case["r"]) if 0.0 <= v <= case["cutoff"]]
     if keep and all(v > 0 for v in case["r"]) or (keep and R == 0):
         tr0 = pystog.Transformer()
         cv0 = pystog.Converter()
-        kw0 = L.kwargs_of(m)
+        kw0 = opts
         rr = np.array([case["r"][i] for i in keep], float)
         gg_ = np.array([case["gr"][i] for i in keep], float)
         dg_ = None if case["dgr"] is None else np.array([case["dgr"][i] for i in keep], float)
@@ -111,7 +117,7 @@ def oracle(pystog, case, res):
             return "uncertainty of the removed component is not that of the transform of the [0, cutoff] signal"
     # returned real-space function = transform of the returned corrected function
     tr = pystog.Transformer()
-    kw = L.kwargs_of(m)
+    kw = opts
     f = getattr(tr, "%s_to_%s" % (L.RN[Q], L.GN[R]))
     _, g2, dg2 = f(o["q"], o["y"], o["r"], o["dy"], **kw)
     xq = o["q"]
@@ -122,7 +128,9 @@ def oracle(pystog, case, res):
         bad = np.abs(np.asarray(g2, float) - o["g"]) > 1e-9 * (mag * conv + 1 + np.abs(o["g"]))
         bad = bad & (o["r"] > 0)      # at r <= 0 the g(r) representation the filter works in holds only the conventional value
     if bad.any():
-        return "returned real-space function is not the transform of the returned corrected function"
+        return "returned real-space function is not the transform of the returned corrected function (lorch=%s omitted=%s)" % (case["lorch"], case["omitted"])
+    if case["lorch"] or case["omitted"]:
+        return None
     # ... and of an independent trapezoid sine quadrature of it (pure Python), for r > 0
     for ri, gi in zip(o["r"], o["g"]):
         if ri <= 0:
